@@ -40,6 +40,15 @@ def rdnssMarshal (lifeS : UInt32) (servers : List Bytes) : Outcome Bytes :=
   if servers = [] then .err .other
   else rawOptMarshal 25 (1 + UInt8.ofNat (2 * servers.length)) ([0, 0] ++ be32Bytes lifeS ++ (servers.map pad16).flatten)
 
+/-- `(*PrefixInformation).marshal`: option 3, length 4, prefix length, the L and A flags, valid and preferred lifetime
+    (s), 4 reserved bytes, the prefix in a 16-byte slot; refused unless the prefix equals itself masked to its length
+    (`maskOk` = `prefix.Equal(prefix.Mask(net.CIDRMask(plen, 128)))`) -/
+def prefixInfoMarshal (plen : UInt8) (onLink auto : Bool) (validS prefS : UInt32) (pfx : Bytes) (maskOk : Bool) : Outcome Bytes :=
+  if maskOk then
+    .ok ([3, 4, plen, (if onLink then (128 : UInt8) else 0) ||| (if auto then (64 : UInt8) else 0)] ++ be32Bytes validS ++
+      be32Bytes prefS ++ [0, 0, 0, 0] ++ pad16 pfx)
+  else .err .other
+
 /-- `marshalOptions`: the encodings in order; the first option that fails (error or panic) decides -/
 def optionsMarshal : List (Outcome Bytes) → Outcome Bytes
   | [] => .ok []
